@@ -853,6 +853,11 @@ func (g *generator) step() (res Value, resultType resultType, ex *Exception) {
 				}
 				return
 			}
+			if !vm.halted() {
+				// an exception that travelled as a Go panic (through a native frame) was caught by
+				// a handler inside the generator: keep running
+				continue
+			}
 
 			if vm.prg != nil && vm.pc == -2 { // normal exit from finally
 				if g.enterNextFinallyFrame() {
